@@ -115,10 +115,8 @@ Definition finish_query_items (o : n_opts) (qsl : list qitem) : list qitem :=
 
 (* normalize_url with unsplit=False (plus whether the input had a protocol); NOriginal = returned unchanged *)
 (* everything after the redirection inference; `original` is only what is returned unchanged *)
-Definition normalize_core (e : env) (o : n_opts) (original url : str) : res nres :=
-  let url := clean_url url in
-  let has_proto := has_protocol url in
-  let url := if has_proto then url else lit "http://" ++ url in
+(* from the parsing on: `url` is cleaned and carries a protocol *)
+Definition normalize_parsed (e : env) (o : n_opts) (original : str) (has_proto : bool) (url : str) : res nres :=
   match urlsplit e url with
   | Exc ValueError => Ok (NOriginal original)
   | Exc x => Exc x
@@ -174,6 +172,12 @@ Definition normalize_core (e : env) (o : n_opts) (original url : str) : res nres
                         query := safe_serialize_qsl qsl; fragment := frag |} has_proto)
       end
   end.
+
+Definition normalize_core (e : env) (o : n_opts) (original url : str) : res nres :=
+  let url := clean_url url in
+  let has_proto := has_protocol url in
+  let url := if has_proto then url else lit "http://" ++ url in
+  normalize_parsed e o original has_proto url.
 
 Definition normalize_split (e : env) (o : n_opts) (original : str) : res nres :=
   let* url := if infer_redirection_o o then infer_redirection e original else Ok original in
@@ -245,8 +249,9 @@ Definition fingerprint_opts : n_opts :=
      normalize_amp := true; fix_common_mistakes := true; infer_redirection_o := true; n_quoted := false;
      lang_filter := true |}.
 
-Definition fingerprint_split (e : env) (t : snode) (strip_suffix : bool) (url : str) : res SplitResult :=
-  let* r := normalize_split e fingerprint_opts (lower url) in
+(* parametrised by the normalisation step (plain, or platform-aware: Ural/NormalizePA.v) *)
+Definition fingerprint_split_with (norm : str -> res nres) (e : env) (t : snode) (strip_suffix : bool) (url : str) : res SplitResult :=
+  let* r := norm (lower url) in
   match r with
   | NOriginal _ => Exc ValueError        (* unpacking a str as a 5-tuple *)
   | NSplit sp _ =>
@@ -264,6 +269,9 @@ Definition fingerprint_split (e : env) (t : snode) (strip_suffix : bool) (url : 
       Ok {| scheme := []; netloc := unsplit_netloc (username sp) (password sp) host None;
             path := relower (path sp); query := q; fragment := relower (fragment sp) |}
   end.
+
+Definition fingerprint_split (e : env) (t : snode) (strip_suffix : bool) (url : str) : res SplitResult :=
+  fingerprint_split_with (normalize_split e fingerprint_opts) e t strip_suffix url.
 
 Definition fingerprint_url (e : env) (t : snode) (strip_suffix : bool) (url : str) : res str :=
   let* r := fingerprint_split e t strip_suffix url in Ok (drop_netloc_slashes r).
